@@ -195,6 +195,39 @@ func verifC15Stale() {
 	_ = stored
 }
 
+// verifC15Rollback: a certified chain m1..m6 above the root, the highest-certified marker on any of its
+// nodes (markers derived by updateHighQC), then the explicit rollback enforceUpdateHighQC to any node
+// of the chain or the root.  Afterwards the highest-certified marker names the target and the generic /
+// locked / commit markers are its successive ancestors as far as they are set - nothing from before
+// the rollback survives.
+func verifC15Rollback() {
+	initQC := &QuorumCert{VoteInfo: &VoteInfo{ProposalId: []byte{0}, ProposalView: 0}, LedgerCommitInfo: &LedgerCommitInfo{CommitStateId: []byte{0}}}
+	root := &ProposalNode{In: initQC}
+	t := &QCPendingTree{Genesis: root, Root: root, HighQC: root, CommitQC: root, OrphanList: list.New(), OrphanMap: make(map[string]bool), Log: vlog.Nop{}}
+	nodes := []*ProposalNode{root}
+	for i := 1; i <= 6; i++ {
+		n := &ProposalNode{In: &QuorumCert{VoteInfo: &VoteInfo{ProposalId: []byte{byte(i)}, ProposalView: int64(i), ParentId: []byte{byte(i - 1)}, ParentView: int64(i - 1)}}}
+		vrt.Assert(t.updateQcStatus(n) == nil, "delivery-accepted")
+		nodes = append(nodes, n)
+	}
+	t.updateHighQC([]byte{byte(1 + vrt.Choice("certified", 6))})
+	target := vrt.Choice("rollback-target", 7)
+	vrt.Assert(t.enforceUpdateHighQC([]byte{byte(target)}) == nil, "rollback-accepted")
+	vrt.Assert(t.HighQC == nodes[target], "rollback-high-is-the-target")
+	anc := func(k int) *ProposalNode {
+		if target-k >= 0 {
+			return nodes[target-k]
+		}
+		return nil
+	}
+	vrt.Assert(t.GenericQC == anc(1), "rollback-generic-is-parent-of-high-or-unset")
+	vrt.Assert(t.LockedQC == anc(2), "rollback-locked-is-grandparent-of-high-or-unset")
+	vrt.Assert(t.CommitQC == anc(3), "rollback-commit-is-great-grandparent-of-high-or-unset")
+	vrt.Cover("rollback-below-a-set-commit-marker", target == 2)
+}
+
+func VerifC15Rollback() { verifC15Rollback() }
+
 func verifC15Run(P, S int) { verifC15Drive(P, S, false) }
 
 // verifC15Deep: all P proposals are delivered first, in an arbitrary order,
